@@ -118,19 +118,32 @@ class World:
         else:
             mesh = simlib.small_mesh(MESHES[elem])
             self.model = self.new_model(mesh.dim)
-            cls = Simulations.Thermal if sim == "thermal" else Simulations.Elastic
+            cls = self.sim_class()
             self.sims = [cls(mesh, self.model, verbosity=False)]
             if shared:
                 # second simulation on the same model and the same mesh object
                 self.sims.append(cls(mesh, self.model, verbosity=False))
+            if sim == "hyper":
+                for s_ in self.sims:
+                    s_.Solver_Set_Hyperbolic_Algorithm(dt=0.25)
         self.extra = []  # (label, got, want) comparisons known independently of the simulation's own state
         self.P = [{"rho": 1.0, "damp": (0.0, 0.0), "bc": [], "algo": None} for _ in self.sims]
         for i, s in enumerate(self.sims):
             self.set_rho(i, 2.5 + i)
 
+    def sim_class(self):
+        from EasyFEA import Simulations
+
+        return {"thermal": Simulations.Thermal, "elastic": Simulations.Elastic, "hyper": Simulations.HyperElastic}[self.sim]
+
     # -- construction of models from public parameters
     def new_model(self, dim, src=None):
         from EasyFEA import Models
+
+        if self.sim == "hyper":
+            if src is None:
+                return Models.HyperElastic.SaintVenantKirchhoff(dim, lmbda=3.0, mu=1.25, thickness=0.75)
+            return Models.HyperElastic.SaintVenantKirchhoff(dim, lmbda=src.lmbda, mu=src.mu, thickness=src.thickness)
 
         if self.sim == "thermal":
             if src is None:
@@ -167,8 +180,10 @@ class World:
         from EasyFEA import Simulations
 
         s = self.sims[i]
-        cls = Simulations.Thermal if self.sim == "thermal" else Simulations.Elastic
+        cls = self.sim_class()
         s2 = cls(clone_mesh(s.mesh), self.new_model(s.mesh.dim, s.model), verbosity=False)
+        if self.sim == "hyper":
+            s2.Solver_Set_Hyperbolic_Algorithm(dt=0.25)
         s2.rho = self.P[i]["rho"]
         if self.sim == "elastic":
             a, b_ = self.P[i]["damp"]
@@ -183,6 +198,11 @@ def warm(w, i=0, solve=True):
     from EasyFEA.FEM import MatrixType
 
     s = w.sims[i]
+    if w.sim == "hyper":
+        # the hyperelastic system is built at the current Newton iterate (set as Solve() does); its element mass matrix is cached on the simulation
+        s._Simu__Solver_Set_Newton_Raphson_current_solution(np.zeros(s.mesh.Nn * s.Get_dof_n()))
+        s.Get_K_C_M_F(s.problemType)
+        return
     s.Get_K_C_M_F()
     for g in s.mesh.Get_list_groupElem():
         for mt in (MatrixType.rigi, MatrixType.mass):
@@ -200,7 +220,7 @@ def warm(w, i=0, solve=True):
         s.Result(name, nodeValues=False)
 
 
-RESULTS = {"elastic": ["Stress", "Wdef_e"], "thermal": ["thermal"]}
+RESULTS = {"elastic": ["Stress", "Wdef_e"], "thermal": ["thermal"], "hyper": []}
 
 
 # ------------------------------------------------------------------------------------------------ operations
@@ -210,7 +230,9 @@ def op_apply(w, name, V, tag):
     mesh = s.mesh
     dim = mesh.dim
     m = w.model
-    if name == "E":
+    if name == "lmbda":
+        m.lmbda = V.get(f"lmbda{tag}", 1, 10)
+    elif name == "E":
         (w.beam if w.sim == "beam" else m).E = V.get(f"E{tag}", 50, 500)
     elif name == "v":
         m.v = V.get(f"nu{tag}", Fraction(1, 10), Fraction(2, 5))
@@ -285,6 +307,7 @@ def op_apply(w, name, V, tag):
 
 OPS = {"elastic": ["E", "v", "planeStress", "thickness", "rho", "damping", "translate", "rotate", "symmetry", "coord", "gcoord", "newmesh", "bc", "bc_add", "set_iter"],
        "thermal": ["k", "c", "thickness", "rho", "translate", "rotate", "symmetry", "coord", "gcoord", "newmesh", "bc", "set_iter"],
+       "hyper": ["lmbda", "thickness", "rho", "translate", "symmetry", "coord", "gcoord", "newmesh"],
        "beam": ["E", "rho", "translate", "bc"]}
 
 
@@ -303,6 +326,15 @@ def observe(w, i, V, s=None):
     fresh = s is not None
     s = s if fresh else w.sims[i]
     out = []
+    if w.sim == "hyper":
+        n = s.mesh.Nn * s.Get_dof_n()
+        s._Simu__Solver_Set_Newton_Raphson_current_solution(V.array(f"newton{n}", n) * Fraction(1, 8) if V.symbolic else V.array(f"newton{n}", n) / 8)
+        s.Need_Update()  # Solve() raises it at every Newton iteration
+        K, C, M, F = s.Get_K_C_M_F(s.problemType)
+        for lab, A in (("K", K), ("M", M), ("F", F)):
+            out.append((lab, dense(A)))
+        out.append(("mesh.coord", np.asarray(s.mesh.coord, dtype=object).reshape(-1)))
+        return out
     K, C, M, F = s.Get_K_C_M_F()
     for lab, A in (("K", K), ("C", C), ("M", M), ("F", F)):
         out.append((lab, dense(A)))
@@ -348,6 +380,9 @@ def run(cfg, V):
             op_apply(w, name, V, f"_{k}")
             if cfg.get("warm_between", True) and k + 1 < len(cfg["ops"]):
                 for i in range(len(w.sims)):
+                    if w.sim == "hyper":
+                        warm(w, i)
+                        continue
                     w.sims[i].Get_K_C_M_F()
                     w.sims[i].Bc_vector_Neumann()
         out = {}
@@ -465,6 +500,12 @@ def configs(tier):
                 out.append({"sim": sim, "elem": elem, "ops": [rng.choice(ops) for _ in range(3)]})
             for a, b in pairs[::3]:
                 out.append({"sim": sim, "elem": elem, "ops": [a, b], "shared": True})
+    # hyperelastic simulation (system at a symbolic Newton iterate, Newmark scheme): its element mass matrix is cached on the simulation
+    hops = OPS["hyper"]
+    for o in hops:
+        out.append({"sim": "hyper", "elem": "TRI3", "ops": [o]})
+    for a, b in ([(a, b) for a in hops for b in hops] if tier == "thorough" else [("newmesh", "coord"), ("coord", "rho"), ("rho", "coord"), ("translate", "coord"), ("coord", "newmesh"), ("thickness", "coord")]):
+        out.append({"sim": "hyper", "elem": "TRI3", "ops": [a, b]})
     extra = [("elastic", "QUAD4"), ("elastic", "TETRA4")] if tier == "thorough" else []
     for sim, elem in extra:
         for o in OPS[sim]:
@@ -490,13 +531,13 @@ def main():
                     "first (mesh.coord + connectivity, model parameters, rho, damping, boundary conditions) with the same symbols, and K, C, M, F, the Neumann vector, the Dirichlet data and "
                     "results of an arbitrary (havoc) state are compared entrywise, for all values of the symbols, by z3 (normal form / exact / relaxation). Both simulations are observed when "
                     "the model and the mesh are shared.",
-        bound={"sequence_length": "1, 2 (all ordered pairs of operations, both tiers); thorough: + 150 seed-drawn triples per simulation type, pairs on shared model + mesh, QUAD4 / TETRA4 singles",
+        bound={"hyperelastic": "SaintVenantKirchhoff + Newmark, system (K, M, F) at a symbolic Newton iterate; singles + selected pairs (quick) / all pairs (thorough)", "sequence_length": "1, 2 (all ordered pairs of operations, both tiers); thorough: + 150 seed-drawn triples per simulation type, pairs on shared model + mesh, QUAD4 / TETRA4 singles",
                "meshes": "tri4 (4 TRI3 + boundary SEG2 + POINT groups), thorough also quad2, tetra2; replacement mesh = affine image of another small mesh",
-               "operations": OPS, "simulations": "Elastic (isotropic), Thermal; shared model + mesh variants", "tolerance": "1e-9 (1e-6 x for K, C and stress-like results)"},
+               "operations": OPS, "simulations": "Elastic (isotropic), Thermal, HyperElastic; shared model + mesh variants", "tolerance": "1e-9 (1e-6 x for K, C and stress-like results)"},
         symbolic=["moduli, Poisson ratio, thickness, conductivity, capacity, density, Rayleigh coefficients", "translation vector, rotation (c, s), reflection offset, scale factors of directly assigned coordinates",
                   "load components", "the state (u) used to evaluate results"],
         assumptions=["the fresh simulation is built from the public state read back from the mutated one (mesh.coord, model parameters): wrong motions themselves are C08 / C10",
-                     "hyperelastic, inelastic, phase-field and beam simulations are not in the sequences", "the linear solve used to warm the caches is the real one (concrete initial configuration)"],
+                     "inelastic, phase-field and beam simulations are not in the sequences; the hyperelastic system is observed at a havoc Newton iterate, not after a Newton solve", "the linear solve used to warm the caches is the real one (concrete initial configuration)"],
         source_files=["EasyFEA/Utilities/_cache.py", "EasyFEA/Utilities/_params.py", "EasyFEA/Utilities/_observers.py", "EasyFEA/Simulations/_simu.py", "EasyFEA/FEM/_mesh.py", "EasyFEA/FEM/_group_elem.py",
                       "EasyFEA/Models/_utils.py", "EasyFEA/Models/Elastic/_laws.py", "EasyFEA/Models/_thermal.py", "EasyFEA/Simulations/_elastic.py", "EasyFEA/Simulations/_thermal.py"],
         rule="one job per (simulation type, operation sequence, shared or not); non-trivial = at least one symbolic operation argument or a mesh replacement",
